@@ -118,7 +118,14 @@ def gen_cases(ctx):
     for i in range(ctx.n(800, 10000)):
         cls = STEREO[i % 2]
         a, b = gen.twin_pair(rng, cls)
-        yield {"kind": "small", "family": "twins", "cls": cls, "a": pg_to_json(a), "b": pg_to_json(b), "stereo": True, "change": False, "labels": ("default", "constant", "element", "element+degree")[i % 4], "bseed": rng.randrange(1 << 30)}  # (no colour labels: they tell unspecified from specified parities apart, which the enumeration mode does not)
+        change = False
+        if cls == "StereoCondensedReactionGraph" and i % 4 == 1:  # the same descriptors as stereo changes
+            slot = rng.choice(["BROKEN", "FORMED", "FLEETING"])
+            for g_ in (a, b):
+                g_["achange"] = {k: {slot: d} for k, d in g_["astereo"].items()}
+                g_["astereo"] = {}
+            change = True
+        yield {"kind": "small", "family": "twins", "cls": cls, "a": pg_to_json(a), "b": pg_to_json(b), "stereo": True, "change": change, "labels": ("default", "constant", "element", "element+degree")[i % 4], "bseed": rng.randrange(1 << 30)}  # (no colour labels: they tell unspecified from specified parities apart, which the enumeration mode does not)
     # very long chains: search depth = number of atoms
     for k, nsz, cls, seed in gen.scale_specs(ctx, rng, reps=1):
         yield {"kind": "small", "family": "scale", "cls": cls, "scale": nsz, "gseed": seed, "self": k % 2 == 0, "stereo": cls in STEREO, "change": cls == "StereoCondensedReactionGraph", "labels": "default", "bseed": seed // 3}
